@@ -949,6 +949,25 @@ def inline_stmt_calls(func, resolve, max_depth: int = 3):
                             ast.copy_location(b, st) if not hasattr(b, "lineno") else None
                         out.extend(expand(new, depth + 1))
                         continue
+            if isinstance(st, ast.For) and depth < max_depth:
+                # a loop over the list a statement helper builds and returns (`for col, t in self._partials(..):`, also inside
+                # enumerate / zip): the iterable is evaluated once, before the loop -- the helper's statements go in front of it
+                is_stmts = lambda c_: (lambda r_: r_ is not None and r_[0] is not func and _simple_callee(r_[0]) == "stmts")(resolve(c_))
+                hit = st.iter if isinstance(st.iter, ast.Call) and is_stmts(st.iter) and all(_pure(a) for a in st.iter.args) \
+                    and all(_pure(k.value) for k in st.iter.keywords) else _first_nested_call(st.iter, is_stmts)
+                if hit is not None:
+                    callee, recv = resolve(hit)
+                    res = inline_stmts(callee, hit, recv)
+                    if res is not None and res[1] is not None:
+                        body, ret = res
+                        st.iter = ret if hit is st.iter else _ReplaceNode(hit, ret).visit(st.iter)
+                        for b in body:
+                            ast.copy_location(b, st) if not hasattr(b, "lineno") else None
+                            ast.fix_missing_locations(b)
+                        ast.fix_missing_locations(st)
+                        out.extend(expand(body, depth + 1))
+                        out.append(st)
+                        continue
             c = value_of(st)
             if isinstance(c, ast.Call) and depth < max_depth:
                 r = resolve(c)
